@@ -15,11 +15,11 @@ import (
 )
 
 type walker struct {
-	seen    map[unsafe.Pointer]map[reflect.Type]bool
-	n       int
-	insts   map[string]bool  // module names of ModuleInstances reached
-	cmOf    map[uintptr]bool // *wasm.Module pointers of compiled modules / compiled functions reached
-	trunc   bool
+	seen  map[unsafe.Pointer]map[reflect.Type]bool
+	n     int
+	insts map[wasm.ModuleID]bool // compiled-module ids of the ModuleInstances reached (one binary per instance)
+	cmOf  map[uintptr]bool       // *wasm.Module pointers of compiled modules / compiled functions reached
+	trunc bool
 }
 
 const walkLimit = 400000
@@ -126,7 +126,9 @@ func (w *walker) note(p, e reflect.Value) {
 	switch {
 	case t == reflect.TypeOf(wasm.ModuleInstance{}):
 		mi := (*wasm.ModuleInstance)(unsafe.Pointer(p.Pointer()))
-		w.insts[mi.ModuleName] = true
+		if mi.Source != nil {
+			w.insts[mi.Source.ID] = true
+		}
 	case t.Name() == "compiledModule" && strings.HasSuffix(t.PkgPath(), "engine/wazevo"):
 		if f := e.FieldByName("module"); f.IsValid() && f.Kind() == reflect.Ptr {
 			w.cmOf[f.Pointer()] = true
@@ -146,11 +148,11 @@ func walkReport(s *side) string {
 		if !ok || mi == nil {
 			continue
 		}
-		w := &walker{seen: map[unsafe.Pointer]map[reflect.Type]bool{}, insts: map[string]bool{}, cmOf: map[uintptr]bool{}}
+		w := &walker{seen: map[unsafe.Pointer]map[reflect.Type]bool{}, insts: map[wasm.ModuleID]bool{}, cmOf: map[uintptr]bool{}}
 		w.walk(reflect.ValueOf(mi))
 		for j := 0; j < maxMods; j++ {
 			if j != i {
-				cells = append(cells, fmt.Sprintf("%d>%d:%s", i, j, b2s(w.insts[modName(j)])))
+				cells = append(cells, fmt.Sprintf("%d>%d:%s", i, j, b2s(s.hasID[j] && w.insts[s.ids[j]])))
 			}
 		}
 		cells = append(cells, fmt.Sprintf("%d>cm:%s", i, b2s(w.cmOf[uintptr(unsafe.Pointer(mi.Source))])))
